@@ -1172,6 +1172,12 @@ func ruleCloseAlwaysCloses(c *Ctx, rule string) {
 				return
 			}
 		}
+		// the path learned that the conn was closed already (c.isClosed() returned true)
+		for cond, t := range env.truth {
+			if pc, _ := callOf(cond); pc != nil && t && w.closedTestPred(pc.Call.StaticCallee(), fld) {
+				return
+			}
+		}
 		bad = w.instrPos(r)
 	}
 	explorePaths(cfg, fn, false)
